@@ -32,9 +32,25 @@ def parse_cfg(ints):
     t2 = [nx() for _ in range(nx())]; late = [nx() for _ in range(nx())]
     return dict(boot=boot, boot2=boot2, sbt=sbt, lateflags=lf, relays=relays, time2=(t2 + [0] * 8)[:8], late=late, rest=list(it))
 
+def chcfg_time(ints):
+    """CHCFG ch func cfgtype cfgsize TimeMS -> (channel, staircase time the message carries) or None when it says nothing about a relay"""
+    ch, fn, ct, cs, ms = (list(ints) + [0] * 5)[:5]
+    K = consts()
+    if fn > 0 and ct == 0 and cs == 0: return None
+    if fn not in (K['FNC_STAIRCASE'], K['FNC_POWERSWITCH'], K['FNC_LIGHTSWITCH']): return None
+    if not 0 <= ch < K['T2_COUNT']: return None
+    return ch, ((ms & 0xffffffff) if fn == K['FNC_STAIRCASE'] and ct == 0 and cs == K['SIZEOF_STAIR_CFG'] else 0)
+
+def aged_boot(rng):
+    """counter value + preset wrap count of an aged device: uptime straddles or lies beyond 2^32 ms (49.7 days)"""
+    k = rng.random()
+    if k < 0.5: return 999 * 2**32 + (2**32 - rng.choice([1, 50000, 400000, 1500000, 3000000, rng.randrange(1, 8000000)]))   # 2^32 ms passed after the next wrap
+    if k < 0.8: return 1000 * 2**32 + rng.choice([0, 1, 999, 1001, rng.getrandbits(31)])
+    return rng.choice([1001, 1500, 4000]) * 2**32 + rng.getrandbits(32)
+
 class C07(F.PropCheck):
     pid = 'C07'; gen_groups = ['RelayConsts']; prop_file = 'Properties_C07'
-    IN = {'CFG': 0, 'SET': 1, 'SW': 2, 'ADV': 3, 'CRASH': 4, 'TIME2': 5, 'FLAGS': 6}
+    IN = {'CFG': 0, 'SET': 1, 'SW': 2, 'ADV': 3, 'CRASH': 4, 'TIME2': 5, 'FLAGS': 6, 'CHCFG': 7}
     OUT = {0: 'GPIO', 1: 'REBOOT', 2: 'SAVED', 3: 'ST', 4: 'FUEL', 5: 'UNKNOWN-EVENT'}
     quick_cases = 2500; thorough_cases = 60000
     JMAX_PROPERTY = 49000       # the property's "scheduling slack": callbacks late by less than 50 ms
@@ -70,6 +86,7 @@ class C07(F.PropCheck):
         elif k < 0.9: late = [rng.choice([0, 0, 1000, 5000, 20000, 30000, rng.randrange(30001)]) for _ in range(rng.randrange(1, 9))]
         else: late = [rng.choice([0, 60000, 200000, rng.randrange(400000)]) for _ in range(rng.randrange(1, 5))]
         boot = 1 if rng.random() < 0.8 else rng.choice([0, 999, 2**32 - rng.randrange(1, 5000000), rng.getrandbits(32)])
+        if rng.random() < 0.07: boot = aged_boot(rng)
         boot2 = rng.choice([1, 1, 1, 5000, rng.getrandbits(31)])
         return dict(boot=boot, boot2=boot2, sbt=rng.choice([0, 0, 1]), lateflags=rng.random() < 0.08, relays=relays, time2=t2, late=late)
 
@@ -80,7 +97,9 @@ class C07(F.PropCheck):
             tags.append('lateflags')
             if rng.random() < 0.8: evs.append(('FLAGS', [], b''))
         if b['late']: tags.append('jitter-big' if max(b['late']) > self.JMAX_PROPERTY else 'jitter')
-        if b['boot'] > 2**31: tags.append('counter-wrap')
+        if b['boot'] >= 2**32: tags.append('aged')
+        elif b['boot'] > 2**31: tags.append('counter-wrap')
+        t2now = list(b['time2'])
         pend = {}      # relay index -> rough remaining ms, to aim advances
         nev = rng.choice([5, 8, 12, 20, 40]); crash = False
         for _ in range(nev):
@@ -108,12 +127,59 @@ class C07(F.PropCheck):
             elif k < 0.955:
                 evs.append(('CRASH', [], b'')); crash = True; tags.append('crash')
                 if b['lateflags'] and rng.random() < 0.7: evs.append(('FLAGS', [], b''))
+            elif k < 0.97:
+                c2 = ch if ch < 8 else 0; ms = rng.choice([0, 100, 700, 5000])
+                evs.append(('TIME2', [c2, ms], b'')); tags.append('time2'); t2now[c2] = ms
             elif k < 0.985:
-                evs.append(('TIME2', [ch if ch < 8 else 0, rng.choice([0, 100, 700, 5000])], b'')); tags.append('time2')
+                evs.append(self.gen_chcfg(rng, ch, t2now)); tags.append('chcfg')
+                r = chcfg_time(evs[-1][1])
+                if r: t2now[r[0]] = r[1]
             else:
                 evs.append(('FLAGS', [], b''))
         evs.append(('ADV', [rng.choice([0, 200000, 1500000, 3000000])], b''))
         return F.Case(cid, evs, sorted(set(tags)))
+
+    def gen_chcfg(self, rng, ch, t2now):
+        """a channel config message: mostly a relay function, value unchanged / changed, sometimes malformed or for another function"""
+        K = consts(); c2 = ch if rng.random() < 0.9 else rng.choice([0, 7, 8, 200])
+        cur = t2now[c2] if 0 <= c2 < 8 else 0
+        k = rng.random()
+        if k < 0.45:     # unchanged (what the server sends after every registration)
+            return ('CHCFG', [c2, K['FNC_STAIRCASE'], 0, K['SIZEOF_STAIR_CFG'], cur], b'') if cur > 0 else \
+                   ('CHCFG', [c2, rng.choice([K['FNC_POWERSWITCH'], K['FNC_LIGHTSWITCH']]), 0, rng.choice([4, 8, 12]), rng.choice([0, 700])], b'')
+        if k < 0.75: return ('CHCFG', [c2, K['FNC_STAIRCASE'], 0, K['SIZEOF_STAIR_CFG'], rng.choice([0, 100, 300, 700, 5000, cur + 1])], b'')
+        if k < 0.85: return ('CHCFG', [c2, rng.choice([K['FNC_POWERSWITCH'], K['FNC_LIGHTSWITCH']]), 0, rng.choice([4, 8]), 0], b'')
+        return ('CHCFG', [c2, rng.choice([0, 20, K['FNC_STAIRCASE'], K['FNC_POWERSWITCH']]), rng.choice([0, 0, 1]), rng.choice([0, 0, 3, 8]), rng.choice([0, 500])], b'')
+
+    def gen_special(self, rng, cid):
+        """(1) a config message in the middle of a countdown, (2) an aged device (uptime around / beyond 2^32 ms)"""
+        K = consts(); cd = K['CHFLAG_COUNTDOWN']
+        if rng.random() < 0.5:
+            n = rng.choice([1, 2, 3]); gp = rng.sample(GPIOS, n)
+            rel = [(gp[i], i, rng.choice([0, 0, 16, 2]), cd if rng.random() < 0.5 else 0) for i in range(n)]
+            t2 = [0] * 8; i = rng.randrange(n)
+            stair = rng.random() < 0.5
+            if stair: t2[i] = rng.choice([800, 1500, 3000])
+            evs = [cfg_event(1, 1, rng.choice([0, 1]), False, rel, t2, rng.choice([[], [], [0, 10000]]))]
+            d = t2[i] if stair else rng.choice([900, 2000, 4000])
+            evs.append(('SET', [i, 1, 0 if stair and rng.random() < 0.5 else d, 5], b'') if rng.random() < 0.8 or not stair else ('SW', [gp[i], 1], b''))
+            evs.append(('ADV', [rng.choice([100000, 300000, d * 500])], b''))
+            for _ in range(rng.choice([1, 1, 2])):
+                evs.append(self.gen_chcfg(rng, i, t2))
+                r = chcfg_time(evs[-1][1])
+                if r: t2[r[0]] = r[1]
+                evs.append(('ADV', [rng.choice([0, 50000, 200000])], b''))
+            evs.append(('ADV', [d * 1000 + rng.choice([200000, 1000000])], b''))
+            return F.Case(cid, evs, ['chcfg-running'])
+        n = rng.choice([1, 2, 4]); gp = rng.sample(GPIOS, n)
+        rel = [(gp[i], i, rng.choice([0, 0, 16, 2]), cd if rng.random() < 0.5 else 0) for i in range(n)]
+        evs = [cfg_event(aged_boot(rng), 1, 0, False, rel, [0] * 8, rng.choice([[], [], [0, 10000]]))]
+        for i in range(n):
+            evs.append(('SET', [i, 1, rng.choice([300, 1200, 5000, 60000]), 3], b'')); evs.append(('ADV', [rng.choice([0, 20000, 400000])], b''))
+        evs.append(('ADV', [rng.choice([1100000, 3000000, 6000000])], b''))
+        if rng.random() < 0.3: evs += [('CRASH', [], b''), ('ADV', [2000000], b'')]
+        evs.append(('ADV', [rng.choice([0, 61000000])], b''))
+        return F.Case(cid, evs, ['aged'])
 
     def gen_overlap(self, rng, cid):
         """many channels expiring together / command storms: aims at the shared timer"""
@@ -155,6 +221,7 @@ class C07(F.PropCheck):
         cases = []
         for i in range(n):
             if i % 12 == 11: cases.append(self.gen_overlap(rng, '%s%d' % (tier[0], i)))
+            elif i % 12 == 5: cases.append(self.gen_special(rng, '%s%d' % (tier[0], i)))
             else: cases.append(self.gen_case(rng, '%s%d' % (tier[0], i), tier))
         if tier == 'thorough': cases += self.every_ms_cases()
         return cases
@@ -208,6 +275,10 @@ class C07(F.PropCheck):
             target = None
             if e[0] == 'SET' and (e[1][0] & 255) in chidx: target = chidx[e[1][0] & 255]
             if e[0] == 'SW' and e[1][0] in pinidx: target = pinidx[e[1][0]]
+            cc = chcfg_time(e[1]) if e[0] == 'CHCFG' else None
+            if cc is not None and cc[1] != time2[cc[0]]:          # a CHANGED staircase time is a command on that channel: the timer is set up anew
+                time2[cc[0]] = cc[1]
+                if cc[0] in chidx: target = chidx[cc[0]]
             crashed = e[0] == 'CRASH'
             if crashed: flags_known = not cfg['lateflags']
             if e[0] == 'FLAGS': flags_known = True
@@ -246,7 +317,9 @@ class C07(F.PropCheck):
                         v.append('after the restart relay gpio %d is at level %d but the saved state says %d' % (g, s['pin'][i], want))
                     if img[1][ch] > 0 and want in (0, 1):
                         stair = time2[ch] > 0
-                        if s['rem'][i] == 0 and not (stair and want == 0):
+                        # saved "off" + remaining time on a channel without countdown capability is no "off for d" (not offered there): it is the
+                        # switch-off timer a staircase config armed while the relay was off; there is nothing to restore
+                        if s['rem'][i] == 0 and not (stair and want == 0) and not (want == 0 and not (cf & consts()['CHFLAG_COUNTDOWN'])):
                             v.append('RESTORE-LOST after the restart no timer is pending for gpio %d although %d ms were saved as remaining (saved level %d)' % (g, img[1][ch], want))
                         elif s['rem'][i] != 0 and not (img[1][ch] - (nrel * OP) // 1000 - 1 <= s['rem'][i] <= img[1][ch]):
                             v.append('after the restart the remaining time of gpio %d is %d ms, the saved one was %d ms' % (g, s['rem'][i], img[1][ch]))
@@ -265,6 +338,11 @@ class C07(F.PropCheck):
                         stair = ch_ < 8 and time2[ch_] > 0
                         if vv == 1 and (0 < dd < 2**31 or stair): d_exp = max(dd if dd < 2**31 else 0, time2[ch_]) if stair else dd
                         elif vv == 0 and 0 < dd < 2**31 and not stair and (cf_ & consts()['CHFLAG_COUNTDOWN']) and flags_known: d_exp = dd
+                    if e[0] == 'CHCFG':
+                        # set_duration_timer(ch, 1, 0, 0): a timer that will switch OFF; no edge will come when the relay is off already
+                        weird[target] = False
+                        on = s['pin'][target] != (1 if rel[target][2] & LO else 0)
+                        if not on: d_exp = 0
                     pending[target] = (t0, t0, d_exp, s['pin'][target]) if d_exp > 0 and not weird[target] else None
                     lastrem[target] = s['rem'][target]; lastt2[target] = s['t2l'][target]
                 for i in range(nrel):
